@@ -359,6 +359,18 @@ func (d *hImpl) step(t []string, cmp func(a, b int) bool) string {
 		e.Value = v
 		h.Fix(e)
 		return "ok"
+	case t[0] == "setrm" && len(t) == 4:
+		// the value changes behind the heap's back and the element is removed WITHOUT a Fix in
+		// between (documented: Fix is "equivalent to, but less expensive than, calling Remove
+		// followed by a Push of the new value")
+		e := elem(t[2])
+		v, ok := atoi(t[3])
+		if e == nil || !ok {
+			return "bad-op"
+		}
+		e.Value = v
+		h.Remove(e)
+		return "ok"
 	}
 	return "bad-op"
 }
@@ -512,10 +524,26 @@ func checkHeap(c core.Case, out []string) *core.Failure {
 				e, _ := atoi(t[2])
 				return e
 			}
+			setrm := false
+			if t[0] == "setrm" && len(t) == 4 && k >= 0 {
+				// `e.Value = v; h.Remove(e)` is `setv e v` followed directly by `rm H e`
+				e, ok1 := atoi(t[2])
+				v, ok2 := atoi(t[3])
+				if !ok1 || !ok2 || e < 0 || e >= len(vals) {
+					return nil
+				}
+				setValue(e, v)
+				setrm = true
+				t = []string{"rm", t[1], t[2]}
+			}
 			if k >= 0 && !broken[k] && anyDirty(k) {
 				switch t[0] {
 				case "peek", "len", "seq", "copyrm", "copyfix":
-				case "fix", "setfix":
+				case "fix", "setfix", "rm":
+					// the ONE pending change is repaired by Fix(e) — or the changed element leaves by
+					// Remove(e) (package doc: Fix is equivalent to Remove followed by a Push of the new
+					// value): the heap is clean again and fully judged from here on. Anything else on a
+					// heap that holds a misplaced element is the caller's misuse.
 					if e := elemArg(); !dirty[e] || !live[k][e] {
 						broken[k] = true
 					}
@@ -576,9 +604,21 @@ func checkHeap(c core.Case, out []string) *core.Failure {
 				}
 			case "rm":
 				e := elemArg()
+				if res != "ok" {
+					return fail("heap-format", i, c, out, "unparsable")
+				}
 				if live[k][e] {
 					delete(live[k], e)
 					delete(dirty, e)
+				} else if setrm {
+					// stale / foreign handle: the value is written, Remove must not touch anything
+					if len(cells) == len(prevCells) {
+						for o := range cells {
+							if cells[o].idx != prevCells[o].idx || (o != e && cells[o].val != prevCells[o].val) {
+								return fail("heap-rm-stale", i, c, out, "Remove with a stale/foreign handle must not change anything but the written Value (before: %s)", tail(out[i-1]))
+							}
+						}
+					}
 				} else if tail(out[i]) != tail(out[i-1]) {
 					return fail("heap-rm-stale", i, c, out, "Remove with a stale/foreign handle must not change anything (before: %s)", tail(out[i-1]))
 				}
@@ -1192,6 +1232,82 @@ func (g *hSim) pick(r *core.Rand, k int) int {
 	return r.Intn(len(g.vals))
 }
 
+// extremeVal: a value that precedes every value the generators make (first) / that every one of
+// them precedes (!first) under the named comparator (keys -9 and 99999; the usual ones are 0..65535).
+func extremeVal(cname string, first bool, tag int) int {
+	asc := cname == "lt" || cname == "key"
+	if first == asc {
+		return -9000 - tag%1000
+	}
+	return 99999000 + tag%1000
+}
+
+// pickChanged aims a `e.Value = v; Remove(e)` inside heap k: the root, an inner node whose
+// substitute (the last leaf, in another subtree) has to travel UP, the last slot, any.
+func (g *hSim) pickChanged(r *core.Rand, k int) int {
+	a := g.arr[k]
+	n := len(a)
+	switch r.Pick(20, 45, 6, 29) {
+	case 0:
+		return a[0]
+	case 1:
+		if i := g.upIndex(r, k); i >= 0 {
+			return a[i]
+		}
+	case 2:
+		return a[n-1]
+	}
+	if n > 2 {
+		return a[r.Intn(n-1)]
+	}
+	return a[r.Intn(n)]
+}
+
+// advValue: a new Value for the live element e of heap k, written right before Remove(e)
+// WITHOUT a Fix. Remove puts the last element (the substitute) into e's slot and must sift it
+// down, else up, looking at the substitute's new neighbours only; the value e carries by then
+// must play no role. The value is chosen so that a comparison of the substitute with e's NEW
+// value points the WRONG way: when the substitute has to go up, a value it does not precede
+// (first of all / a tie with the substitute / with e's parent); when it has to go down or stay,
+// a value it precedes (last of all / just after the substitute).
+func (g *hSim) advValue(r *core.Rand, k, e int, cname string) int {
+	a := g.arr[k]
+	n := len(a)
+	i := g.idx[e]
+	tag := e % 1000
+	asc := cname == "lt" || cname == "key"
+	withKey := func(ky int) int {
+		if ky < 0 {
+			return ky*1000 - tag
+		}
+		return ky*1000 + tag
+	}
+	sub := g.vals[a[n-1]]
+	switch {
+	case i == n-1:
+		return extremeVal(cname, r.Bool(), tag)
+	case i > 0 && g.less(k, n-1, (i-1)/2):
+		// the substitute travels up
+		switch r.Pick(50, 20, 15, 15) {
+		case 1:
+			return withKey(sub / 1000) // ties with the substitute under key / rkey
+		case 2:
+			return sub // the very same value
+		case 3:
+			return withKey(g.vals[a[(i-1)/2]] / 1000) // ties with e's parent
+		}
+		return extremeVal(cname, true, tag)
+	}
+	// the substitute travels down (or stays)
+	if r.Chance(30) {
+		if asc {
+			return withKey(sub/1000 + 1)
+		}
+		return withKey(sub/1000 - 1)
+	}
+	return extremeVal(cname, false, tag)
+}
+
 // pickCap: a capacity for New; mostly small ones, which the pushes of a case cross.
 func pickCap(r *core.Rand) int {
 	return heapCaps[r.Pick(14, 13, 13, 13, 10, 10, 10, 9, 8)]
@@ -1425,7 +1541,44 @@ func genHeap(r *core.Rand) core.Case {
 			nextW, stopW = 18, 2
 			rangeW = 6
 		}
-		switch r.Pick(pushW, 14, 3, 2, 20, 9, 5, 1, initW, 9, 9, 3, rangeW, 1, 4, 6, pullW, nextW, stopW) {
+		switch r.Pick(pushW, 14, 3, 2, 20, 9, 5, 1, initW, 9, 9, 3, rangeW, 1, 4, 6, pullW, nextW, stopW, 6, 4) {
+		case 19:
+			// e.Value = v; h.Remove(e) — no Fix in between (documented use: Fix is "equivalent to,
+			// but less expensive than, calling Remove followed by a Push of the new value"). Mostly a
+			// live handle with a value that misleads a one-direction repair; a stale one; an element
+			// of the OTHER heap only with its value unchanged (as for setfix)
+			e := -1
+			if len(g.arr[k]) > 0 && r.Chance(85) {
+				e = g.pickChanged(r, k)
+			} else {
+				e = g.pick(r, k)
+			}
+			if e < 0 {
+				continue
+			}
+			v := valFor(e)
+			switch {
+			case g.own[e] == 1-k:
+				v = g.vals[e]
+			case g.own[e] == k && r.Chance(75):
+				v = g.advValue(r, k, e, cmpNow[k])
+			}
+			lines = append(lines, fmt.Sprintf("setrm %s %d %d", H, e, v))
+			g.vals[e] = v
+			g.remove(k, e)
+		case 20:
+			// the same as two lines: `setv e v` followed DIRECTLY by `rm H e` on the owner
+			if len(g.arr[k]) == 0 {
+				continue
+			}
+			e := g.pickChanged(r, k)
+			v := valFor(e)
+			if r.Chance(75) {
+				v = g.advValue(r, k, e, cmpNow[k])
+			}
+			lines = append(lines, fmt.Sprintf("setv %d %d", e, v), fmt.Sprintf("rm %s %d", H, e))
+			g.vals[e] = v
+			g.remove(k, e)
 		case 15:
 			// the loop body uses the heaps while PopAll is being ranged over
 			kb := k
@@ -1690,6 +1843,19 @@ func classifyHeap(c core.Case, out []string) []string {
 		}
 		opName := t[0]
 		var sq *seqInfo
+		// afterSet: this Remove comes right after the caller changed the element's Value (no Fix)
+		afterSet := ""
+		if i > 0 && t[0] == "setrm" && len(t) == 4 && out[i] != "bad-op" {
+			if v, ok := atoi(t[3]); ok {
+				seenVals = append(seenVals, v)
+			}
+			t = []string{"rm", t[1], t[2]}
+			afterSet = "h:setrm"
+		} else if i > 1 && t[0] == "rm" && len(t) == 3 {
+			if q := core.Toks(c.Lines[i-1]); len(q) == 3 && q[0] == "setv" && q[1] == t[2] {
+				afterSet = "h:rm:after-setv"
+			}
+		}
 		if i > 0 && len(t) >= 2 && (t[0] == "range" || t[0] == "rangeall") && out[i] != "bad-op" {
 			// a range over a stored Seq = popalln / popall on the heap it was made from
 			sl, ok := slotOf(t[1], len(seqs))
@@ -2270,6 +2436,10 @@ func classifyHeap(c core.Case, out []string) []string {
 				if sameIdx {
 					lab += ":unchanged"
 				}
+			} else if opName == "setrm" {
+				if sameIdx {
+					lab += ":unchanged"
+				}
 			} else if tail(out[i]) == tail(out[i-1]) {
 				lab += ":unchanged"
 			}
@@ -2277,10 +2447,16 @@ func classifyHeap(c core.Case, out []string) []string {
 			switch {
 			case own[e] == 1-k:
 				ls = append(ls, d+":foreign")
+				if opName == "setrm" {
+					ls = append(ls, "h:setrm:foreign")
+				}
 			case own[e] < 0:
 				ls = append(ls, d+":stale")
 				if how[e] != "" {
 					ls = append(ls, d+":stale:after-"+how[e])
+				}
+				if opName == "setrm" {
+					ls = append(ls, "h:setrm:stale")
 				}
 			case t[0] == "rm":
 				if repushed[e] {
@@ -2292,12 +2468,40 @@ func classifyHeap(c core.Case, out []string) []string {
 				last := n[k] - 1
 				if prev[e].idx == last {
 					ls = append(ls, "h:rm:last")
+					if afterSet != "" {
+						ls = append(ls, afterSet+":last")
+					}
 				} else {
 					for o := range prev {
 						if own[o] == k && prev[o].idx == last {
-							ls = append(ls, "h:rm"+move(prev[e].idx, cells[o].idx))
+							mv := move(prev[e].idx, cells[o].idx)
+							ls = append(ls, "h:rm"+mv)
+							if afterSet == "" {
+								continue
+							}
+							// which way the substitute (the last element) went, and which way a
+							// comparison of it with the removed element's NEW value would have pointed
+							ls = append(ls, afterSet+mv)
+							if prev[e].idx == 0 {
+								ls = append(ls, afterSet+":root")
+							}
+							if cf := cmpOf(cmpName[k]); cf != nil {
+								pointsUp := cf(cells[o].val, cells[e].val)
+								switch {
+								case mv == ":down" && pointsUp:
+									ls = append(ls, afterSet+":down-though-substitute-precedes-new-value")
+								case mv == ":up" && !pointsUp:
+									ls = append(ls, afterSet+":up-though-substitute-does-not-precede-new-value")
+								}
+							}
+							if n[k] >= 64 {
+								ls = append(ls, afterSet+":n>=64")
+							}
 						}
 					}
+				}
+				if afterSet == "h:rm:after-setv" {
+					ls = append(ls, afterSet)
 				}
 				if n[k] == 1 {
 					ls = append(ls, "h:rm:single")
